@@ -1109,15 +1109,7 @@ func runC06(rc *RunCtx) {
 						break
 					}
 				}
-				// under an injected I/O error the library's existence tests answer 'absent' and a move may then skip entries it
-				// goes on to remove; the property quantifies over programs and inputs, not over failing backends, so that
-				// is counted, not judged. Under cancellation nothing of the kind is excusable.
-				if lastCall.op == opMove && mode == 0 {
-					if lost := moveLost(pre, post, c06Clean(lastCall.p1), c06Clean(lastCall.p2)); len(lost) > 0 && !rootReplaced(w, c06Clean(lastCall.p2)) {
-						res.Probe("move-lost-content-under-io-error(outside the property)")
-					}
-				}
-				if lastCall.op == opMove && mode == 1 {
+				if lastCall.op == opMove {
 					if lost := moveLost(pre, post, c06Clean(lastCall.p1), c06Clean(lastCall.p2)); len(lost) > 0 && !rootReplaced(w, c06Clean(lastCall.p2)) {
 						viol(opName+"|move-destroyed-its-source|under-fault", fmt.Sprintf("%s with an %s at its operation %d of %d (cross-device rename: %v) returned %v: content that was under the source is afterwards neither at its place nor under the destination: %v", lastCall, what, k, nops, w.exdev, r.err, lost))
 					}
